@@ -5,7 +5,9 @@ REGISTRY = {
     'C03': 'harness.fitkernel',
     'C04': 'harness.fitkernel',
     'C05': 'harness.c05',
+    'C10': 'harness.session',
     'C11': 'harness.fitkernel',
+    'C18': 'harness.session',
     'C19': 'harness.c19',
     'C20': 'harness.c20',
 }
